@@ -32,7 +32,7 @@ TERM = {
     "quick":    {"N3": "2000", "N4": "300", "BMin": "6000"},
     "thorough": {"N3": "0", "N4": "20000", "BMin": "6000"},
 }
-N_OPS = 130    # entry points bound in Shapes.tla (vacuity: every one must occur, accepted and rejected)
+N_OPS = 162    # entry points bound in Shapes.tla (vacuity: every one must occur, accepted and rejected)
 
 
 # ----------------------------------------------------------------------------- part A
@@ -72,6 +72,14 @@ def part_a(ctx, binary):
     total_ops = {"AppendScalar", "AppendVector", "T", "Tip", "SetIdentity", "AsVector", "AsConstVector", "RAlloc",
                  "svd", "householderBidiagonalization", "gramSchmidt", "Jacobian", "Hessian"}
     for op, cl in per_op.items():
+        if ".alias." in op:
+            if cl != {"any"}:
+                raise vlib.Infra("unexpected classes for %s: %s" % (op, sorted(cl)))
+            continue
+        if op.startswith("opt.InSitu."):
+            if cl != {"ok", "any"}:
+                raise vlib.Infra("unexpected classes for %s: %s" % (op, sorted(cl)))
+            continue
         if op.startswith("opt.InSituByValue.") or op.startswith("opt.UnknownOption."):
             if cl != {"reject"}:
                 raise vlib.Infra("unexpected classes for %s: %s" % (op, sorted(cl)))
@@ -150,7 +158,7 @@ def part_b(ctx, binary):
             classes[c["class"]] = classes.get(c["class"], 0) + 1
     need = {"int1x1", "int2x2", "int3x3", "int4x4", "zero", "identity", "nilpotent", "jordan", "rank1", "repeated", "complex",
             "companion", "nonfinite", "nan", "posinf", "error", "constraints_never", "constraints_only_start",
-            "zero_gradient", "epsilon_unattainable", "ls_le", "ls_lt", "ls_never", "ls_only_zero"}
+            "zero_gradient", "epsilon_unattainable", "newton_cycle", "domain_error", "domain_nan", "ls_le", "ls_lt", "ls_never", "ls_only_zero"}
     if not need <= set(classes):
         raise vlib.Infra("input classes missing: %s" % sorted(need - set(classes)))
     ctx.log("Termination: %d cases, classes %s" % (len(lines), json.dumps(classes, sort_keys=True)))
